@@ -8,12 +8,18 @@ pub(crate) fn escape_html_body(s: &str) -> Cow<'_, str> {
     lazy_static! {
         static ref REGEX: Regex = Regex::new("[<\"&]").unwrap();
     }
-    REGEX.replace_all(s, |caps: &Captures| match &caps[0] {
+    let ret = REGEX.replace_all(s, |caps: &Captures| match &caps[0] {
         "<" => "&lt;".to_owned(),
         "\"" => "&quot;".to_owned(),
         "&" => "&amp;".to_owned(),
         _ => unreachable!(),
-    })
+    });
+    // `{{` would start a data binding when the text is parsed again
+    if ret.contains("{{") {
+        Cow::Owned(ret.replace("{{", "&#123;&#123;"))
+    } else {
+        ret
+    }
 }
 
 pub(crate) fn escape_html_quote(s: &str) -> Cow<'_, str> {
